@@ -50,6 +50,7 @@ MODULES = [
     'wpull.scraper.html',
     'wpull.scraper.sitemap',
     'wpull.processor.base',
+    'wpull.processor.rule',
     'wpull.processor.web',
     'wpull.processor.ftp',
 ]
@@ -71,6 +72,11 @@ ENTRIES = {
     ],
     'scrape': [
         ('wpull.scraper.base', 'DemuxDocumentScraper', 'scrape_info', None),
+    ],
+    # the per-URL work of the two processors, from the first robots.txt request to the end of link extraction
+    'process': [
+        ('wpull.processor.web', 'WebProcessorSession', 'process', None),
+        ('wpull.processor.ftp', 'FTPProcessorSession', 'process', None),
     ],
     # finer entry points exercised directly by the fuzz tie (not theorems)
     'fuzz': [
@@ -170,7 +176,7 @@ EXT_FUNCS = {
     'bool': PURE, 'min': 'consume', 'max': 'consume', 'range': PURE, 'dict': 'consume', 'tuple': 'consume', 'list': 'consume',
     'set': 'consume', 'frozenset': 'consume', 'sorted': 'consume', 'any': 'consume', 'all': 'consume', 'sum': 'consume',
     'type': PURE, 'iter': 'transparent', 'enumerate': 'transparent', 'zip': 'transparent', 'reversed': PURE, 'bytes': PURE,
-    'print': PURE, 'id': PURE, 'callable': PURE, 'abs': PURE, 'format': PURE, 'cast': PURE, 'object': PURE,
+    'typing.cast': PURE, 'print': PURE, 'id': PURE, 'callable': PURE, 'abs': PURE, 'format': PURE, 'cast': PURE, 'object': PURE,
     'int': 'prim:int', 'float': 'prim:int',
     'next': ('prim_if_nargs', 'next', 1),
     '_': PURE, '__': PURE, 'super': PURE,
@@ -180,6 +186,8 @@ EXT_FUNCS = {
     'io.BytesIO': PURE, 'io.StringIO': PURE, 'io.TextIOWrapper': 'prim:textio_wrap',
     'copy.deepcopy': PURE, 'copy.copy': PURE,
     'base64.b64encode': PURE,
+    'os.chmod': LOCAL, 'os.symlink': LOCAL, 'tempfile.NamedTemporaryFile': LOCAL, 'fnmatch.fnmatchcase': PURE, 'urllib.parse.quote': PURE,
+    'posixpath.basename': PURE, 'posixpath.dirname': PURE, 'posixpath.join': PURE,
     'os.getcwd': PURE, 'os.strerror': PURE, 'os.path.join': PURE, 'os.path.dirname': PURE,
     'asyncio.sleep': PURE, 'asyncio.wait_for': ('consume_then', 'wait_for'), 'asyncio.open_connection': ('deferred', 'net_task'),
     'asyncio.iscoroutine': PURE, 'asyncio.iscoroutinefunction': PURE, 'asyncio.get_event_loop': PURE,
@@ -276,6 +284,7 @@ EXT_METHODS = {
     'bandwidth': {'*': PURE},
     'defaultdict': {'items': PURE, 'get': PURE, 'keys': PURE, 'values': PURE},
     'tokenizer': {},
+    'urlinfo': {'split_path': PURE, 'to_dict': PURE},       # wpull.url.URLInfo accessors on an already parsed URL
 }
 
 # result kinds of external constructors (for typing local variables)
@@ -359,6 +368,27 @@ RECV_TYPES = {
     ('*', 'self._original_request'): ['wpull.protocol.http.request:Request'],
     ('*', 'self._response.fields'): [NVR],
     ('wpull.protocol.http.web:WebSession._process_redirect', 'new_fields'): [NVR],
+    # ---- processors
+    ('*', 'self._fetch_rule'): ['wpull.processor.rule:FetchRule'],
+    ('*', 'self._processing_rule'): ['wpull.processor.rule:ProcessingRule'],
+    ('*', 'self._result_rule'): ['ext:local'],          # ResultRule: status bookkeeping, statistics, hooks, waiter (local)
+    ('*', 'self._web_client_session'): ['wpull.protocol.http.web:WebSession'],
+    ('*', 'self._item_session'): ['ext:local'],         # ItemSession: URL table rows of this item (local database)
+    ('*', 'item_session'): ['ext:local'],
+    ('*', 'self._file_writer_session'): ['ext:local'],  # file writer: local files
+    ('*', 'self._robots_txt_checker'): ['wpull.protocol.http.robots:RobotsTxtChecker'],
+    ('*', 'self._document_scraper'): ['wpull.scraper.base:DemuxDocumentScraper'],
+    ('*', 'self._processor.web_client'): ['wpull.protocol.http.web:WebClient'],
+    ('*', 'phantomjs_coprocessor'): ['ext:local'], ('*', 'youtube_dl_coprocessor'): ['ext:local'],   # coprocessors: disconnected (DESIGN 5.8)
+    ('*', 'self._processor.ftp_client'): ['wpull.protocol.ftp.client:Client'],
+    ('*', 'self._processor.ftp_client.session()'): ['wpull.protocol.ftp.client:Session'],
+    ('*', 'self._item_session.app_session.factory'): ['ext:dict'],
+    ('*', 'self._url_rewriter'): ['ext:local'],         # URLRewriter: local string rewriting of an already parsed URL
+    ('*', 'self._item_session.url_record.url_info'): ['ext:urlinfo'],
+    ('*', 'self._web_client_session.redirect_tracker'): ['wpull.protocol.http.redirect:RedirectTracker'],
+    ('*', 'self._current_session.event_dispatcher'): ['ext:local'],
+    ('*', 'self.hook_dispatcher'): ['ext:local'],       # plugin hooks: taken as disconnected / local
+    ('*', 'self._url_filter'): ['ext:local'],           # DemuxURLFilter.test_info: local decision logic (C02)
     ('wpull.protocol.http.stream', 'request'): ['wpull.protocol.http.request:Request'],
     ('wpull.protocol.http.stream', 'response'): ['wpull.protocol.http.request:Response'],
     ('wpull.protocol.http.web', 'request'): ['wpull.protocol.http.request:Request'],
@@ -390,6 +420,9 @@ CALLS = {
     ('*', 'self._stream_factory'): ('ctor', 'wpull.protocol.http.stream:Stream'),
     ('*', 'data_stream_factory'): ('ctor', 'wpull.protocol.ftp.stream:DataStream'),
     ('*', 'self._session_class()'): LOCAL,
+    ('*', "self._item_session.app_session.factory['WebClient'].request_factory"): ('ctor', 'wpull.protocol.http.request:Request'),
+    ('*', 'self._fetch_rule.check_ftp_request'): ('method', 'wpull.processor.rule:FetchRule', 'check_generic_request'),   # class-level alias
+    ('*', 'self.parse_url'): PURE,                      # staticmethod(wpull.url.parse_url_or_log): catches ValueError, returns None
     # --- call sites that cannot fail for a local reason (ASSUMPTIONS, like SAFE_SITES)
     ('wpull.protocol.http.client:Session.start', 'int'): PURE,            # our own Content-Length header
     ('wpull.protocol.http.request:Response.parse_status_line', 'int'): PURE,   # the regex group is [0-9]{1,3}
@@ -424,6 +457,7 @@ WITH_TABLE = {
     ('*', 'wpull.util.reset_file_offset'): (None, None),           # seeks the local file back
     ('*', 'wpull.util.close_on_error'): (None, 'callarg0'),         # on error: call the close function, re-raise
     ('*', 'contextlib.closing'): (None, None),
+    ('*', 'temp_file'): (None, None),                               # a local NamedTemporaryFile
     ('*', 'self._close_timer.with_timeout'): (None, None),
 }
 
@@ -456,7 +490,7 @@ YIELD_FROM_PLAIN = {}
 LAZY_RETURN_OK = {}
 
 # (function defname, kind, source text) -> why the site cannot raise.
-# kind: assert | index | unpack | raise | setitem | div ; 'noraise' keys are "<callee text>#<occurrence>" -> ([classes], why)
+# kind: assert | index | unpack | raise | setitem | setattr (property setter) | div ; 'noraise' keys are "<callee text>#<occurrence>" -> ([classes], why)
 # Every entry is an ASSUMPTION about local state or about an invariant the code itself establishes a few
 # lines earlier; none is about server data.  The fuzz tie watches for each of these classes at every entry.
 CONN_STATE = 'connection state is changed only by this client (close/reset); readers stop after closing'
@@ -549,6 +583,36 @@ SAFE_SITES = {
     ('wpull.protocol.ftp.ls.listing:parse_unix_perm', 'index', 'text[string_index]'): 'len(text) == 9 checked',
     ('wpull.protocol.ftp.ls.listing:parse_unix_perm', 'index', 'text[string_index + 1]'): 'len(text) == 9 checked',
     ('wpull.protocol.ftp.ls.listing:parse_unix_perm', 'index', 'text[string_index + 2]'): 'len(text) == 9 checked',
+    # ---- processors (local objects built by the application before the crawl starts)
+    ('wpull.processor.web:WebProcessorSession._new_initial_request', 'index', "self._item_session.app_session.factory['WebClient']"):
+        "the application factory always holds a 'WebClient' when a WebProcessor exists",
+    ('wpull.processor.web:WebProcessorSession._new_initial_request', 'noraise', "self._item_session.app_session.factory['WebClient'].request_factory#1"):
+        (['builtins.ValueError'], 'the URL comes from the URL table: it was parsed (URLInfo.parse) before it was added'),
+    ('wpull.processor.ftp:FTPProcessorSession.process', 'noraise', 'Request#1'):
+        (['builtins.ValueError'], 'the URL comes from the URL table: it was parsed (URLInfo.parse) before it was added'),
+    ('wpull.processor.rule:FetchRule.consult_filters', 'index', "test_info['verdict']"): 'DemuxURLFilter.test_info always returns the verdict key (local)',
+    ('wpull.processor.web:WebProcessorSession._add_referrer', 'noraise', 'URLInfo.parse#1'):
+        (['builtins.ValueError'], 'parent_url comes from the URL table: it was parsed before it was added'),
+    ('wpull.processor.rule:FetchRule.consult_hook', 'index', "test_info['map']"): 'the test_info dict is built by DemuxURLFilter.test_info with the keys verdict / passed / failed / map (local decision logic, C02)',
+    ('wpull.processor.rule:FetchRule.is_only_span_hosts_failed', 'index', "test_info['failed']"): 'the test_info dict is built by DemuxURLFilter.test_info with the keys verdict / passed / failed / map (local decision logic, C02)',
+    ('wpull.processor.rule:FetchRule.is_only_span_hosts_failed', 'index', "test_info['map']"): 'the test_info dict is built by DemuxURLFilter.test_info with the keys verdict / passed / failed / map (local decision logic, C02)',
+    ('wpull.processor.rule:FetchRule.is_only_span_hosts_failed', 'index', "test_info['map']['SpanHostsFilter']"): "'SpanHostsFilter' in test_info['map'] checked in the same expression",
+    ('wpull.processor.ftp:FTPProcessorSession._add_request_password', 'unpack', '(request.username, request.password) = self._fetch_rule.ftp_login'):
+        'ftp_login is a (user, password) pair from the command line (local)',
+    ('wpull.processor.web:WebProcessorSession._populate_common_request', 'unpack', '(request.username, request.password) = self._fetch_rule.http_login'):
+        'http_login is a (user, password) pair from the command line (local)',
+    ('wpull.processor.ftp:FTPProcessorSession._fetch_parent_path', 'index', 'self._processor.listing_cache[directory_url]'):
+        'directory_url in self._processor.listing_cache checked just above',
+    ('wpull.processor.ftp:FTPProcessorSession.process', 'unpack', '(dir_name, filename) = self._item_session.url_record.url_info.split_path()'):
+        'URLInfo.split_path returns a pair',
+    ('wpull.processor.web:WebProcessorSession._process_loop', 'unpack', '(verdict, reason) = self._should_fetch_reason()'):
+        'FetchRule.check_subsequent_web_request returns (verdict, reason)',
+    ('wpull.processor.web:WebProcessorSession._process_robots', 'unpack', '(verdict, reason) = (yield from self._should_fetch_reason_with_robots(request))'):
+        'FetchRule.check_initial_web_request returns (verdict, reason)',
+    ('wpull.processor.ftp:FTPProcessorSession._to_directory_request', 'setattr', 'directory_request.url = directory_url'): 'an FTP URL rebuilt from the components of an already parsed URLInfo (ftp://host[:port]/dir/)',
+    ('wpull.processor.ftp:FTPProcessorSession._fetch_parent_path', 'setattr', 'directory_request.url = directory_url'): 'an FTP URL rebuilt from the components of an already parsed URLInfo (ftp://host[:port]/dir/)',
+    ('wpull.processor.ftp:FTPProcessorSession._prepare_request_file_vs_dir', 'setattr', 'request.url = append_slash_to_path_url(request.url_info)'): 'an FTP URL rebuilt from the components of an already parsed URLInfo (ftp://host[:port]/dir/)',
+    ('wpull.processor.ftp:FTPProcessorSession._fetch_parent_path', 'setitem', 'self._processor.listing_cache[directory_url]'): 'the listing cache is a local LRU mapping',
     # ---- scrapers
     ('wpull.scraper.base:BaseTextStreamScraper.iter_processed_links', 'index', 'item[1]'): 'iter_processed_text yields 2-tuples',
     ('wpull.scraper.base:BaseTextStreamScraper.iter_processed_links', 'index', 'item[0]'): 'iter_processed_text yields 2-tuples',
